@@ -95,6 +95,18 @@ def run(ctx):
     with open(table) as f:
         tj = json.load(f)
     nrows = sum(len(c["rows"]) for c in tj["classes"])
+    # every tier must contain every credential and connection case (each selects a distinct branch of access.go /
+    # ucrednet.go / ConnectionState.Active); a trimmed config must never drop one silently
+    need = {0: {"valid", "missing", "garbage", "trailing", "leading", "nopid", "nouid"},
+            5: {"none", "activeListed", "bothListed", "activeOther", "undesired", "hotplugGone", "otherSnap", "slotSide", "notSnap", "badRef"}}
+    have = {0: set(), 5: set()}
+    for row in tj["classes"][0]["rows"]:
+        f = row["k"].split("|")
+        have[0].add(f[0])
+        have[5].add(f[5])
+    for i in need:
+        if need[i] - have[i]:
+            raise InfraError("the %s config lacks request cases %s" % (ctx.tier, sorted(need[i] - have[i])))
     if nrows * 2 != mc.distinct:      # every (class, request) is one pending + one decided state
         raise InfraError("decision table rows (%d x2) do not match the model-checked state count (%d)" % (nrows, mc.distinct))
     if os.environ.get("VERIF_C26_CORRUPT_TABLE"):        # binding demo: corrupt one expected decision
